@@ -241,7 +241,7 @@ class C02(Base):
         chunks = sorted({c for c in chunks if len(c) < 600})
         for c in chunks:
             yield "spec " + hx(c)
-        n2 = 700 if quick else 40000
+        n2 = 700 if quick else 6000
         nl = 8 if quick else 12
         pool = []
         for k in range(n2):
@@ -252,14 +252,14 @@ class C02(Base):
             yield "spec %s ~ g2:%s" % ("|".join(hx(s) for s, _ in lay), hexs(exp))
             if k < 3000:
                 pool.append(lay[rng.randrange(len(lay))][0])
-        n3 = 5000 if quick else 250000
+        n3 = 5000 if quick else 120000
         mpool = pool + chunks
         for _ in range(n3):
             yield "spec " + hx(ftlgen.g3_mutate(rng, rng.choice(mpool), rng.choice([1, 1, 2, 3])))
         for base in rng.sample(chunks, min(len(chunks), 15 if quick else 300)):
             for p in ftlgen.g3_prefixes(base):
                 yield "spec " + hx(p)
-        n4 = 2000 if quick else 150000
+        n4 = 2000 if quick else 60000
         for _ in range(n4):
             yield "spec " + hx(ftlgen.g4_soup(rng, 14 if rng.random() < 0.9 else 40))
         if not quick:
